@@ -999,6 +999,70 @@ fn fam_union<A: Shape, B: Shape>(cx: &mut Ctx, p: &ByteCase) {
 }
 
 // ------------------------------------------------------------------------------------
+// family 6: ArcUnion<E, E> — both variants over ONE allocation
+// ------------------------------------------------------------------------------------
+fn fam_union_same<E: Shape>(cx: &mut Ctx, p: &ByteCase) {
+    let seed = p.p(4);
+    cx.what = format!("union<E,E> (E align {} n {}) first and second variant over one allocation", E::ALIGN, E::N);
+    let a = lib!(Arc::new(E::pat(seed)));
+    let addr = Arc::as_ptr(&a) as usize;
+    let f: ArcUnion<E, E> = lib!(ArcUnion::from_first(a.clone()));
+    let s2: ArcUnion<E, E> = lib!(ArcUnion::from_second(a.clone()));
+    let f2 = lib!(f.clone());
+    if !f.is_first() || f.is_second() || s2.is_first() || !s2.is_second() {
+        viol::report(P12, "V.variant", format!("{}: variants confused", cx.what));
+    }
+    if lib!(f == s2) || lib!(s2 == f) || !lib!(f == f2) {
+        viol::report(P12, "V.eq-across-variants", format!("{}: First(x) == Second(x) answered true (or First(x) != its clone)", cx.what));
+    }
+    if ArcUnion::ptr_eq(&f, &s2) || ArcUnion::ptr_eq(&s2, &f) || !ArcUnion::ptr_eq(&f, &f2) {
+        viol::report(P12, "V.ptr-eq", format!("{}: a First and a Second union are reported pointer-equal (or a First and its clone are not)", cx.what));
+    }
+    let (bf, bs) = (lib!(f.as_first()), lib!(s2.as_second()));
+    if bf.map(|b| b.get() as *const E as usize) != Some(addr) || bs.map(|b| b.get() as *const E as usize) != Some(addr) || lib!(f.as_second()).is_some() || lib!(s2.as_first()).is_some() {
+        viol::report(P12, "V.borrow", format!("{}: as_first / as_second do not expose the allocation at {:#x}", cx.what, addr));
+    }
+    for (n, c) in [("first", ArcUnion::strong_count(&f)), ("second", ArcUnion::strong_count(&s2)), ("plain", Arc::count(&a))] {
+        if c != 4 {
+            viol::report(&["C12", "C04"], "N.count", format!("{}: {} handle reports {} owners (expected 4)", cx.what, n, c));
+        }
+    }
+    // drop in a generated order; the last owner is a union of a generated variant
+    let order = p.p(5) % 4;
+    match order {
+        0 => {
+            lib!(drop(a));
+            lib!(drop(f));
+            lib!(drop(f2));
+            lib!(drop(s2));
+        }
+        1 => {
+            lib!(drop(s2));
+            lib!(drop(a));
+            lib!(drop(f2));
+            lib!(drop(f));
+        }
+        2 => {
+            lib!(drop(f));
+            lib!(drop(s2));
+            lib!(drop(f2));
+            lib!(drop(a));
+        }
+        _ => {
+            lib!(drop(f2));
+            lib!(drop(f));
+            lib!(drop(a));
+            lib!(drop(s2));
+        }
+    }
+    cx.union_nt = true;
+    cx.release_differs = true;
+    if !alloc::live_blocks().is_empty() {
+        viol::report(&["C12", "C01"], "F.leak", format!("{}: blocks still allocated after every handle was dropped", cx.what));
+    }
+}
+
+// ------------------------------------------------------------------------------------
 // dispatch over the static matrix
 // ------------------------------------------------------------------------------------
 pub type H0 = S<A1, 0>;
@@ -1032,6 +1096,7 @@ fn run_pair<H: Shape, E: Shape>(cx: &mut Ctx, p: &ByteCase, fams: &[u8]) {
         2 => fam_hs::<H, E>(cx, p, true),
         3 => fam_slice::<E>(cx, p),
         5 => fam_str::<H>(cx, p),
+        6 => fam_union_same::<E>(cx, p),
         _ => fam_union::<H, E>(cx, p),
     }
 }
@@ -1064,7 +1129,7 @@ pub struct MatrixEngine {
 impl MatrixEngine {
     pub fn new(prop: &'static str) -> Self {
         let fams = match prop {
-            "C12" => vec![4],
+            "C12" => vec![4, 4, 4, 6],
             "C11" => vec![0, 0, 0, 1, 2, 2, 3, 5],
             "C09" => vec![0],
             _ => vec![0, 1, 2, 3, 4, 5],
